@@ -883,7 +883,20 @@ var addPathOptions = func() []*bgp.MarshallingOption {
 	return []*bgp.MarshallingOption{{AddPath: m}}
 }()
 
+var (
+	twoByteASOptions      = []*bgp.MarshallingOption{{Use2ByteAS: true}}
+	addPath2ByteASOptions = []*bgp.MarshallingOption{{AddPath: addPathOptions[0].AddPath, Use2ByteAS: true}}
+)
+
 func (m *BGP4MPMessage) marshallingOptions() []*bgp.MarshallingOption {
+	if m.BGP4MPHeader != nil && !m.isAS4 {
+		// RFC 6396 4.4.2 / 4.4.3: only the *_AS4 subtypes carry 4-octet AS
+		// numbers; in the others the AS_PATH is in the 2-octet encoding
+		if m.isAddPath {
+			return addPath2ByteASOptions
+		}
+		return twoByteASOptions
+	}
 	if m.isAddPath {
 		return addPathOptions
 	}
